@@ -54,6 +54,22 @@ class Ctx:
         self.stats: Dict[str, int] = {'functions_analysed': 0, 'paths_enumerated': 0, 'pairs_compared': 0,
                                       'feasible_pairs': 0, 'sites_scanned': 0}
         self.notes: List[str] = []
+        r_ = self.repo
+        if getattr(r_, 'renamed', None):
+            self.notes.append('private names renamed throughout the package, read under their confirmed names: %s' % r_.renamed)
+        if getattr(r_, 'fresh_write_only', None):
+            self.notes.append('new write-only state left out (no confirmed code reads it): %s' % sorted(
+                '%s.%s' % (k[0] or '*', k[1]) for k in r_.fresh_write_only))
+        if getattr(r_, 'fresh_default_bound', None):
+            self.notes.append('new attributes bound to the default of a new optional constructor parameter, read as that default: %s' % sorted(
+                '%s.%s' % (k[0] or '*', k[1]) for k in r_.fresh_default_bound))
+        try:
+            un = sorted(c.name for c in r_.unused_new_classes())
+        except Exception:
+            un = []
+        if un:
+            self.notes.append('new classes that nothing in the package refers to are outside the scope of this verdict: %s' % un)
+            print('NOTE property=%s new classes outside the scope of the references (not decided): %s' % (prop, ', '.join(un)))
         self.assumptions: List[str] = []
         self.consulted: set = set()
         self._fn_seen = set()
@@ -156,8 +172,13 @@ class Ctx:
             return [None]
         view = view or View()
         opts = opts or Options(integer_dims=view.integer_dims)
-        code = self.paths(ctx, f, opts)
         spec_src = self._rename_private_attrs(spec_src, ctx, f)
+        extra = self._extra_defaulted_params(f, spec_src)
+        if extra:
+            # new optional parameters at the end of the signature: the method as every existing caller sees it
+            f = f.specialised(extra)
+            self.notes.append('%s: new optional parameter(s) %s read at their defaults' % (f.qualname, ', '.join(extra)))
+        code = self.paths(ctx, f, opts)
         # the reference is a method of the class it is written for: `super()` in it starts after *that* class, also
         # when the code under comparison is now inherited from a base
         # (a definition moved into a base the confirmed tree does not have stays where it was found: `super()` there is
@@ -232,6 +253,31 @@ class Ctx:
         for old_, new_ in m.items():
             spec_src = _re.sub(r'\bself\.%s\b' % _re.escape(old_), 'self.' + new_, spec_src)
         return spec_src
+
+    def _extra_defaulted_params(self, f, spec_src):
+        """names of parameters the code has beyond the reference's: only trailing positional parameters with a constant
+        default and keyword-only parameters with a constant default qualify (anything else is a signature difference)"""
+        import ast as _ast
+        import textwrap as _tw
+        try:
+            sfn = [n for n in _ast.parse(_tw.dedent(spec_src)).body if isinstance(n, _ast.FunctionDef)][0]
+        except Exception:
+            return []
+        a, b = f.node.args, sfn.args
+        ca = [x.arg for x in a.posonlyargs + a.args]
+        sa = [x.arg for x in b.posonlyargs + b.args]
+        out = []
+        if len(ca) > len(sa) and not a.vararg:
+            tail_ = (a.posonlyargs + a.args)[len(sa):]
+            nd = len(a.defaults)
+            dflt = [None] * (len(ca) - nd) + list(a.defaults)
+            if all(isinstance(dflt[len(sa) + i], _ast.Constant) for i in range(len(tail_))):
+                out += [x.arg for x in tail_]
+        skw = {x.arg for x in b.kwonlyargs}
+        for x, d in zip(a.kwonlyargs, a.kw_defaults):
+            if x.arg not in skw and isinstance(d, _ast.Constant):
+                out.append(x.arg)
+        return out
 
     def _compare_signatures(self, rule, f, spec_f, ctx, cls, own):
         """number of parameters and default values (canonical terms) agree with the reference"""
